@@ -1,38 +1,51 @@
 #!/usr/bin/env python3
-"""Try a hand mutation: tools/trymut.py [--tests] <repo file> <old> <new> <check ids...>
+"""Try a property-breaking change against some quick checks, in a scratch worktree (never in /repo:
+other runs may be using it).
 
-Replaces `old` by `new` (exactly one occurrence) in /repo/<file>, optionally runs the repository's
-tests, runs the given quick checks, prints their VIOLATION lines and always restores the file.
-Or: tools/trymut.py [--tests] --patch <patch file> <check ids...>
+  tools/trymut.py [--tests] <repo file> <old> <new> <check ids...>     exactly one occurrence replaced
+  tools/trymut.py [--tests] --patch <patch file> <check ids...>
+
+The change is applied to a scratch `git worktree` of /repo's HEAD under /dev/shm, the checks run with
+PHYLIB_SRC pointing at it (evidence and replay files go to the scratch directory), their verdicts and
+first signatures are printed, and the worktree is removed.
 """
+import os
+import shutil
 import subprocess
 import sys
+import tempfile
 
 args = sys.argv[1:]
 tests = False
 if args and args[0] == '--tests':
     tests = True
     args = args[1:]
-if args[0] == '--patch':
-    patch, checks = args[1], args[2:]
-    r = subprocess.run(['git', '-C', '/repo', 'apply', patch])
-    if r.returncode:
-        sys.exit('patch does not apply')
-else:
-    path, old, new, checks = args[0], args[1], args[2], args[3:]
-    full = '/repo/' + path
-    s = open(full).read()
-    if s.count(old) != 1:
-        sys.exit('pattern occurs %d times' % s.count(old))
-    open(full, 'w').write(s.replace(old, new))
+base = '/dev/shm' if os.path.isdir('/dev/shm') else tempfile.gettempdir()
+d = tempfile.mkdtemp(prefix='phyverif-trymut-', dir=base)
+wt = os.path.join(d, 'wt')
+subprocess.run(['git', '-C', '/repo', 'worktree', 'add', '-q', '--detach', wt, 'HEAD'], check=True,
+               capture_output=True)
 try:
+    if args[0] == '--patch':
+        patch, checks = os.path.abspath(args[1]), args[2:]
+        r = subprocess.run(['git', '-C', wt, 'apply', patch])
+        if r.returncode:
+            sys.exit('patch does not apply')
+    else:
+        path, old, new, checks = args[0], args[1], args[2], args[3:]
+        full = os.path.join(wt, path)
+        s = open(full).read()
+        if s.count(old) != 1:
+            sys.exit('pattern occurs %d times' % s.count(old))
+        open(full, 'w').write(s.replace(old, new))
     if tests:
-        r = subprocess.run('cd /repo && /venv/bin/python -m pytest -q -p no:cacheprovider -x '
-                           '--deselect phylib/io/tests/test_datasets.py '
-                           '-q 2>&1 | tail -3', shell=True, capture_output=True, text=True)
-        print('TESTS:', r.stdout.strip().splitlines()[-1] if r.stdout.strip() else r.stderr)
+        r = subprocess.run('cd %s && TQDM_DISABLE=1 /venv/bin/python -m pytest -q -p no:cacheprovider '
+                           '--timeout=900 --continue-on-collection-errors 2>&1 | tail -1' % wt,
+                           shell=True, capture_output=True, text=True)
+        print('TESTS:', r.stdout.strip())
+    env = dict(os.environ, PHYLIB_SRC=wt, VERIF_NO_EVIDENCE='1', VERIF_REPLAY_DIR=os.path.join(d, 'replays'))
     for c in checks:
-        r = subprocess.run(['timeout', '900', '/verif/check', c], capture_output=True, text=True)
+        r = subprocess.run(['timeout', '1500', '/verif/check', c], capture_output=True, text=True, env=env)
         lines = [l for l in r.stdout.splitlines() if l.startswith(('VIOLATION', '  signature', 'HARNESS',
                                                                    'UNREPRODUCED', 'KNOWN'))]
         print('%s exit=%d %s' % (c, r.returncode, 'DETECTED' if r.returncode == 1 else
@@ -42,5 +55,5 @@ try:
         if r.returncode not in (0, 1):
             print(r.stdout[-1500:], r.stderr[-1500:])
 finally:
-    subprocess.run(['git', '-C', '/repo', 'checkout', '--', '.'])
-    print(subprocess.run(['git', '-C', '/repo', 'status', '--short'], capture_output=True, text=True).stdout)
+    subprocess.run(['git', '-C', '/repo', 'worktree', 'remove', '--force', wt], capture_output=True)
+    shutil.rmtree(d, ignore_errors=True)
